@@ -42,3 +42,14 @@ def relevant(assumptions, goal, rounds):
     return [a for a, k in zip(assumptions, keep) if k]
 
 
+
+
+# Library characterisations of FRESH symbols (e.g. the permutation np.argsort returns): conservative extensions - for
+# every interpretation of the other symbols there is an interpretation of the fresh ones that satisfies them (that is
+# the library's contract).  fact id -> (fact, frozenset of the fresh symbol names it characterises)
+EXT: dict = {}
+
+
+def ext_fact(st, f, fresh_syms):
+    st.fact(f)
+    EXT[f.get_id()] = (f, frozenset(fresh_syms))
